@@ -48,7 +48,10 @@ C15_QUERY_ALGOS = ["T_HOO", "HCT", "VHCT", "Zooming", "POO"]
 
 
 def c15_group(seed, idx, algo):
-    base = gen_algo_case(seed, idx, algo, force={"t0": 1, "query_rounds": [], "mid_queries": []})
+    f0 = {"t0": 1, "query_rounds": [], "mid_queries": []}
+    if algo in ("POO", "GPO"):
+        f0["base"] = ["T_HOO", "HCT", "VHCT"][idx % 3]      # every base learner under every wrapper
+    base = gen_algo_case(seed, idx, algo, force=f0)
     out = [base]
     if base.trace is None or base.trace["stopped"]:
         return out
@@ -61,6 +64,8 @@ def c15_group(seed, idx, algo):
         cur += rnd.randint(1, 4); lab.append(cur)
     variants.append(("labels=increasing", {"labels": lab, "query_rounds": []}))
     variants.append(("labels=constant", {"labels": [7] * T, "query_rounds": []}))
+    far0 = rnd.choice([10 ** 3, 10 ** 6, 10 ** 9])
+    variants.append(("labels=far", {"labels": [far0 + rnd.choice([1, 1000]) * i for i in range(T)], "query_rounds": []}))
     if algo in C15_QUERY_ALGOS:
         qs = sorted(set(rnd.sample(range(1, T), min(T - 1, rnd.choice([1, 3, 10])))))
         variants.append((f"queries@{qs[:5]}", {"t0": 1, "query_rounds": qs}))
@@ -275,6 +280,17 @@ def c14_group(seed, idx, algo):
     except Exception as e:
         base.fail("C14", "plain-run-exception", f"{type(e).__name__}: {e}", algo=algo)
         return out
+    # the user's domain exactly as written: one range given high-to-low (the library's own partition tests do that)
+    # must come back untouched whatever the run does with it (an exception of the run is not this clause's business)
+    try:
+        jj = rnd.randrange(len(meta["box"]))
+        written = [[hi, lo] if j == jj else [lo, hi] for j, (lo, hi) in enumerate(meta["box"])]
+        rd = plain_run(algo, dict(meta, box=written), rewards[:40], s)
+        base.tags["c14-descending-range-runs"] += 1
+        if rd[2] != written:
+            base.fail("C14", "domain-mutated", f"user domain {written} came back as {rd[2]}", algo=algo, kind=meta["kind"])
+    except Exception:
+        base.tags["c14-descending-range-run-raised"] += 1
     # isolation: two instances interleaved (partitions whose geometry does not depend on the generator state)
     # (VROOM draws from the generator in every pull, so it is outside the interleaving part of the quantifier)
     if algo != "VROOM" and (meta["kind"] == "dimBinary" or (meta["kind"] in ("binary", "kary") and meta["d"] == 1)):
